@@ -77,6 +77,13 @@ CATALOGUE = [
     # a protected base is no base for conversions
     ("result-type", "peer", "hidden1"), ("assignment", "ival", "{ a.peer = hidden1; 1 }"), ("assignment", "ival", "{ let v: VfWidget = hidden1; 1 }"),
     ("arguments", "ival", "hidden1.ival"), ("operand-types", "bval", "hidden1 == a"),
+    # an inherited property keeps the type it has in the class that declares it
+    ("assignment", "ival", "{ badge1.mode3 = VfBadge.Circle; 1 }"), ("operand-types", "bval", "badge1.mode3 == VfBadge.Square"),
+    ("assignment", "ival", "{ badge1.shape = VfWidget.ModeA; 1 }"), ("operand-types", "bval", "badge1.shape == badge1.mode3"),
+    # every element of an array has to agree with ALL the others
+    ("operand-types", "bval", "[a, null, other1].isEmpty()"), ("operand-types", "bval", "[{I_d}, 0, {U_d}].isEmpty()"),
+    ("operand-types", "bval", "[[{S_d}], [], [{I_d}]].isEmpty()"), ("operand-types", "bval", "[{S_d}, {S}, {I_d}].isEmpty()"),
+    ("operand-types", "bval", "[other1, null, null, a].isEmpty()"),
     # every return of a body has to agree with ALL the others, whatever comes first (an untyped literal first hides nothing)
     ("result-type", "uval", "{ if ({B_d}) return 0; if (!{B_d}) return {I_d}; return {U_d}; }"),
     ("result-type", "ival", "{ if ({B_d}) return 1; if (!{B_d}) return {U_d}; return {I_d}; }"),
@@ -101,6 +108,8 @@ CONTROLS = [
     ("peer", "{B_d} ? a : null"), ("slist", '{B_d} ? ["a"] : []'), ("wpeer", "hidden1"), ("ival", "hidden1.depth"),
     ("uval", "{ if ({B_d}) return 0; if (!{B_d}) return 7; return {U_d}; }"), ("ival", "{ if ({B_d}) return 0; if (!{B_d}) return {I_d}; return 3; }"),
     ("peer", "{ if ({B_d}) return null; if (!{B_d}) return a; return b; }"),
+    ("ival", "{ badge1.mode3 = VfWidget.ModeB; badge1.shape = VfBadge.Circle; 1 }"), ("bval", "badge1.mode3 == VfWidget.ModeA && badge1.shape != VfBadge.Square"),
+    ("bval", "[a, null, null].isEmpty()"), ("bval", "[null, a, b].isEmpty()"), ("bval", "[{I_d}, 0, 1].isEmpty()"), ("bval", "[[{S_d}], [], [{S}]].isEmpty()"),
 ]
 
 
@@ -115,7 +124,7 @@ def expand(tmpl, variant):
 
 
 def wrap(prop, prog):
-    return ("import qmluic.QtWidgets\nQWidget {\n VfWidget { id: a }\n VfWidget { id: b }\n VfSub { id: sub1 }\n VfOther { id: other1 }\n VfPlot { id: plot1 }\n VfHidden { id: hidden1 }\n"
+    return ("import qmluic.QtWidgets\nQWidget {\n VfWidget { id: a }\n VfWidget { id: b }\n VfSub { id: sub1 }\n VfOther { id: other1 }\n VfPlot { id: plot1 }\n VfHidden { id: hidden1 }\n VfBadge { id: badge1 }\n"
             " VfWidget {\n  id: t0\n  %s: %s\n }\n}\n" % (prop, prog))
 
 
